@@ -191,7 +191,7 @@ func sortStrings(s []string) {
 }
 
 func checkC20(e *RunEnv) *CheckResult {
-	values := []string{strings.Repeat("long value ", 6400) + "end", "v", "a b", "a=b", "=x", "x=", "[x]", "]", "#c", `"q"`, "é", `a\b`, "%s", "a = b", "x: y", "Build Bot #7", "a ;b", "#", "; x"}
+	values := []string{strings.Repeat("long value ", 6400) + "end", "v", "a b", "a=b", "=x", "x=", "[x]", "]", "#c", `"q"`, "é", `a\b`, "%s", "a = b", "x: y", "Build Bot #7", "a ;b", "#", "; x", "Émile Zoë", "Łukasz Żak", "山田 太郎", "ß", "Sammy Davis Jr.", "'quoted'", ":x:"}
 	emails := []string{"a@b.co", "a.b+c-d_e@x-y.z9.org"}
 	bfsSteps := []Step{}
 	for _, g := range []bool{false, true} {
